@@ -226,9 +226,8 @@ func init() {
 			var gg *gen
 			units, patterns, err := codecUnits([]string{prop}, tier, "misc", func(g *gen, msgs []*Message) string {
 				gg = g
-				if prop == "C05" && tier == "thorough" {
-					g.mapN = 3
-				}
+				// thorough C05: two entries with keys over their FULL domain (quick: single-length key
+				// window); three full-domain entries exhausted a 12000-path budget (measured)
 				return g.MiscSource(prop, msgs, fieldFilterFor(tier))
 			})
 			if err != nil {
@@ -257,7 +256,7 @@ func init() {
 		}
 	}
 	specs["C05"] = mkMisc("C05", map[string]string{
-		"determinism": "every map field at top level and one level down inside singular / repeated / oneof / map-value messages; 0..2 entries (3 in thorough) with symbolic distinct keys; two marshal runs and a clone with reversed insertion order and flipped nil/empty containers, each under every map iteration order",
+		"determinism": "every map field at top level and one level down inside singular / repeated / oneof / map-value messages; 0..2 entries with symbolic distinct keys (quick: integer keys in a one-byte window; thorough: full key domain); two marshal runs and a clone with reversed insertion order and flipped nil/empty containers, each under every map iteration order",
 	})
 	specs["C07"] = mkMisc("C07", map[string]string{
 		"aliasing":    "object identity on the executor heap: no []byte reachable from the decoded message (bytes fields in singular/repeated/oneof/map positions, unknown fields, nested) is backed by the input array; the input array term is untouched; decoding once and twice (Merge/duplicate records)",
